@@ -62,7 +62,7 @@ Proof. vm_compute. auto. Qed.
 
 (* ---- the code's algorithms (structure-faithful model Impl.v, both package
    shapes) compute exactly these Spec functions, on all byte strings ---- *)
-From Strcase Require Import Impl Instances.
+From Strcase Require Import Impl Impl2 Instances.
 
 Theorem C09_hasprefix_refines : forall p s t, wf s -> wf t ->
   HasPrefix fold121 (lower_pkg p) p s t = Ok (has_prefix fold121 s t).
@@ -78,3 +78,18 @@ Theorem C09_cutprefix_refines : forall p s t, wf s -> wf t ->
   CutPrefix fold121 (lower_pkg p) p s t = Ok (cut_prefix fold121 s t).
 Proof. exact cutprefix_refines121. Qed.
 Print Assumptions C09_cutprefix_refines.
+
+Theorem C09_hassuffix_refines : forall p s t, wf s -> wf t ->
+  HasSuffix fold121 (lower_pkg p) s t = Ok (has_suffix fold121 s t).
+Proof. exact hassuffix_refines121. Qed.
+Print Assumptions C09_hassuffix_refines.
+
+Theorem C09_trimsuffix_refines : forall p s t, wf s -> wf t ->
+  TrimSuffix fold121 (lower_pkg p) s t = Ok (trim_suffix fold121 s t).
+Proof. exact trimsuffix_refines121. Qed.
+Print Assumptions C09_trimsuffix_refines.
+
+Theorem C09_cutsuffix_refines : forall p s t, wf s -> wf t ->
+  CutSuffix fold121 (lower_pkg p) s t = Ok (cut_suffix fold121 s t).
+Proof. exact cutsuffix_refines121. Qed.
+Print Assumptions C09_cutsuffix_refines.
